@@ -41,6 +41,8 @@ func init() {
 			{ID: "C19-R15", Title: "containers never encode as JSON null", Floor: 2, Run: containersNeverEncodeAsNull},
 			{ID: "C19-R16", Title: "integer divisors from scripts are tested", Floor: 1, Run: scriptDivisionsAreGuarded},
 			{ID: "C19-R17", Title: "byte_slice methods call their bytes namesake", Floor: 10, Run: byteSliceMethodsCallTheirNamesake},
+			{ID: "C19-R18", Title: "encodings are chosen by options, not by data", Floor: 1, Run: encodingsAreChosenByOptionsNotByData},
+			{ID: "C19-R19", Title: "padded encodings see the whole input", Floor: 2, Run: paddedEncodingsSeeTheWholeInput},
 		},
 	})
 }
